@@ -40,7 +40,8 @@ def lemma_task(qual, variants, mk_args, removed_arg=None):
                     removed = lambda n, c=c, R=R: z3.Or(z3.Select(R, n), c.mem(n))
                 what = "raise(" + str(o.exc) + ")" if o.kind == "raise" else "return"
                 parts = [("graph-invariant", g1.wf(ctx)), ("typed", spec.typed(ctx, g1)), ("wiring", spec.wired_edges(ctx, g1)),
-                         ("registry", spec.registry_ok(ctx, g1, bb1, pin, removed))]
+                         ("registry", spec.registry_ok(ctx, g1, bb1, pin, removed)),
+                         ("pins-of-distinct-instances", spec.pins_distinct(ctx, bb1, pin, removed))]
                 for lab, f in parts:
                     ctx.oblige(f"{label}/wired#{i}:{what}:{lab}", o.st.pc, f, "lemma")
                 if o.kind == "raise":
@@ -87,7 +88,8 @@ def lemma_add_subcircuit(variants):
                 g1, bb1 = o.st.g(me), o.st.bb(me)
                 what = "raise(" + str(o.exc) + ")" if o.kind == "raise" else "return"
                 parts = [("graph-invariant", g1.wf(ctx)), ("typed", spec.typed(ctx, g1)), ("wiring", spec.wired_edges(ctx, g1)),
-                         ("registry", spec.registry_ok(ctx, g1, bb1, pin, removed_after))]
+                         ("registry", spec.registry_ok(ctx, g1, bb1, pin, removed_after)),
+                         ("pins-of-distinct-instances", spec.pins_distinct(ctx, bb1, pin, removed_after))]
                 for lab, f in parts:
                     ctx.oblige(f"{label}/wired#{i}:{what}:{lab}", o.st.pc, f, "lemma")
                 if o.kind == "raise":
@@ -114,7 +116,7 @@ def _setout(ex, v):
 def _add(uid):
     def mk(ex, v):
         fi, fo = v.split(",")
-        sh = {"none": lambda t: NONE, "str": lambda t: _arg(ex, "str", t), "list": lambda t: _arg(ex, "list", t)}
+        sh = {"none": lambda t: NONE, "str": lambda t: _arg(ex, "str", t), "list": lambda t: _arg(ex, "list", t), "set": lambda t: _arg(ex, "set", t)}
         nt = ex.ctx.fresh("node_type", ex.ctx.T)
         verify.note_arg(ex, "node_type", nt)
         return [_arg(ex, "str", "n"), TypeV(nt)], {"fanin": sh[fi]("fanin"), "fanout": sh[fo]("fanout"),
@@ -160,7 +162,8 @@ def setter_on_body(qual, param, shapes):
                 g1, bb1 = o.st.g(me), o.st.bb(me)
                 what = "raise(" + str(o.exc) + ")" if o.kind == "raise" else "return"
                 for lab, f in [("graph-invariant", g1.wf(ctx)), ("typed", spec.typed(ctx, g1)), ("wiring", spec.wired_edges(ctx, g1)),
-                               ("registry", spec.registry_ok(ctx, g1, bb1, pin, lambda n, R=R: z3.Select(R, n)))]:
+                               ("registry", spec.registry_ok(ctx, g1, bb1, pin, lambda n, R=R: z3.Select(R, n))),
+                         ("pins-of-distinct-instances", spec.pins_distinct(ctx, bb1, pin, lambda n, R=R: z3.Select(R, n)))]:
                     ctx.oblige(f"{label}/wired#{i}:{what}:{lab}", o.st.pc, f, "post")
                 ctx.oblige(f"{label}/edges-unchanged#{i}:{what}", o.st.pc, spec.same_edges(ctx, g1, g0), "post")
                 if o.kind == "raise":
@@ -174,9 +177,23 @@ def setter_on_body(qual, param, shapes):
     return run
 
 
-PAIRS = ["str,str", "list,list", "str,list", "list,str", "set,str", "str,set"]
+PAIRS = ["str,str", "list,list", "str,list", "list,str", "set,str", "str,set", "list,set", "set,list", "set,set"]
 ADDV = [f"{a},{b}" for a in ("none", "str", "list") for b in ("none", "str", "list")]
+def base_case(ctx):
+    """the empty circuit satisfies the invariant of the induction (for any set R)"""
+    from pyvc.engine import Graph, BBDict
+    g, bb = Graph.empty(ctx), BBDict.empty(ctx)
+    pin = ctx.template(("", ".", ""))
+    R = ctx.arr_nb("removed_by_caller")
+    rem = lambda n: z3.Select(R, n)
+    for lab, f in [("graph-invariant", g.wf(ctx)), ("typed", spec.typed(ctx, g)), ("wiring", spec.wired_edges(ctx, g)),
+                   ("registry", spec.registry_ok(ctx, g, bb, pin, rem)), ("pins-of-distinct-instances", spec.pins_distinct(ctx, bb, pin, rem))]:
+        ctx.oblige(f"C07:empty-circuit/wired:{lab}", [], f, "lemma")
+    return {"function": "circuitgraph/circuit.py::Circuit.__init__ (empty graph, empty registry)", "sha256": "", "lines": [0, 0], "variants": ["empty circuit"], "kind": "base case of the induction"}
+
+
 TASKS = {
+    "C07/base-case": base_case,
     "C07/connect": lemma_task("Circuit.connect", PAIRS, _two),
     "C07/disconnect": lemma_task("Circuit.disconnect", PAIRS, _two),
     "C07/remove": lemma_task("Circuit.remove", ["str", "list", "set"], _one, removed_arg=0),
